@@ -97,6 +97,7 @@ def run_once_e3(cfg: E3Config, chooser: Chooser, *, world_hook=None, around_run=
     ref = reference(spec, [i for i, _ in base.requested], precached=base.precached, faults=base.faults,
                     died=base.died, bust_cache=base.bust_cache, context=ctx, pre_context=ctx, corrupt=base.corrupt)
     gt: list = []
+    measured = [not cfg.prelude]       # False while the prelude call is running
     eff_workers = cfg.max_workers if cfg.max_workers is not None else cfg.cpu_count
     world = VWorld(chooser, cpu_count=cfg.cpu_count, log_mode=cfg.log_mode,
                    die_labels=[spec.labels[i] for i in base.died], die_exit0=cfg.die_exit0,
@@ -119,6 +120,8 @@ def run_once_e3(cfg: E3Config, chooser: Chooser, *, world_hook=None, around_run=
         if child.method != want_method:
             gt.append(('C16', 'start-method', f'{cfg.backend} backend started the process for {k} with start method {child.method!r}'))
         i = idx.get(k)
+        if measured[0] and (i is None or i not in ref.needed):
+            gt.append(('C03', 'outside-closure-process', f'a worker process was started for {k}, which is not in the dependency closure of the requested tasks'))
         if i is not None and not child.use_cache:
             done = {c.task_key for c in w.children if c.result_committed or (c.state != 'running')}
             for j in spec.deps[i]:
@@ -217,10 +220,12 @@ def run_once_e3(cfg: E3Config, chooser: Chooser, *, world_hook=None, around_run=
                 # this very backend object (another Lab, another storage, other tasks, another epoch) was
                 # aborted by a task failure with continue_on_failure=False while one worker was still
                 # running and one task had not been started.  Nothing of it may show in the measured call.
-                pspec = mk_spec(((), (0,), (), ()), labels=(100, 101, 102, 103))
+                # (the failing task is the first one; depending on the schedule a finished result is
+                # still held for a dependent, a worker is still running, tasks are still queued)
+                pspec = mk_spec(((), (), (1,), (), ()), labels=(100, 101, 102, 103, 104))
                 pbuilt = Built(pspec)
                 st0 = MemStorage()
-                U.WORLD.reset(epoch=7, faults=[101])
+                U.WORLD.reset(epoch=7, faults=[100])
                 try:
                     labtech.Lab(storage=st0, runner_backend=backend, continue_on_failure=False, notebook=False,
                                 context=ctx, max_workers=2).run_tasks(list(pbuilt.canon), disable_progress=True, disable_top=True)
@@ -232,6 +237,7 @@ def run_once_e3(cfg: E3Config, chooser: Chooser, *, world_hook=None, around_run=
                     st0.release()
                 del backend_events[:]
                 del gt[:]
+                measured[0] = True
                 world.record('prelude-done')
                 U.WORLD.reset(epoch=1, faults=[spec.labels[i] for i in base.faults], fault_exc=base.fault_exc,
                               emit={spec.labels[i]: pat for i, pat in base.emit})
